@@ -2,7 +2,7 @@
    Statements only; proofs in Algebra/ and Proofs/RegressionP.v. *)
 From Coq Require Import ZArith List Bool QArith Qcanon Permutation String.
 From TE Require Import Base.Val Base.Nd Base.Xq Algebra.Metric Algebra.MergeTree Algebra.Cache Algebra.Pool
-  Models.Aggregation Models.Aggregation2 Models.Regression Models.Stat Proofs.RegressionP Proofs.CovP.
+  Models.Aggregation Models.Aggregation2 Models.Regression Models.Stat Proofs.RegressionP Proofs.CovP Proofs.RegAlgP Proofs.AdoptP.
 Import ListNotations.
 Open Scope list_scope.
 Open Scope Qc_scope.
@@ -65,6 +65,47 @@ Theorem cov_merge_eq_single : forall d a al b bl,
   = fold_left (upd cov_metric d) ((a :: al) ++ (b :: bl)) (init cov_metric d).
 Proof. exact cov_merge_shards. Qed.
 
+(* ---- shape-adopting additive states: commutative monoid with an adjoined identity (a fresh 0-dim state of a
+   2-D stream carries no data); any sharding / merge order / nesting, all batches of the configured width ---- *)
+Theorem mse_any_sharding : forall (c : mse_cfg) (t t' : mtree mse_metric),
+  Forall (fun b => valid mse_metric c b = true) (stream _ t) ->
+  Forall (fun b => valid mse_metric c b = true) (stream _ t') ->
+  Permutation (stream _ t) (stream _ t') ->
+  cmp mse_metric c (run mse_metric c t) = cmp mse_metric c (run mse_metric c t').
+Proof. intros c. exact (merge_tree_any_sharding mse_metric mse_alg c aop_comm). Qed.
+Theorem r2_any_sharding : forall (c : r2_cfg) (t t' : mtree r2_metric),
+  Forall (fun b => valid r2_metric c b = true) (stream _ t) ->
+  Forall (fun b => valid r2_metric c b = true) (stream _ t') ->
+  Permutation (stream _ t) (stream _ t') ->
+  cmp r2_metric c (run r2_metric c t) = cmp r2_metric c (run r2_metric c t').
+Proof. intros c. exact (merge_tree_any_sharding r2_metric r2_alg c aop_comm). Qed.
+(* ---- PSNR: (count, sse) sums x (min, max) semilattice ---- *)
+Theorem psnr_any_sharding : forall (c : option Qc) (t t' : mtree p_metric),
+  Forall (fun b => valid p_metric c b = true) (stream _ t) ->
+  Forall (fun b => valid p_metric c b = true) (stream _ t') ->
+  Permutation (stream _ t) (stream _ t') ->
+  cmp p_metric c (run p_metric c t) = cmp p_metric c (run p_metric c t').
+Proof. intros c. exact (merge_tree_any_sharding p_metric psnr_alg c p_op_comm). Qed.
+(* ---- list-shaped abstractions (symbolic log-linear forms, cached samples): any merge tree equals the single
+   instance on the in-order stream; order-insensitivity of the VALUE is the commutativity of real addition
+   under the symbolic nodes (NE, Perplexity) resp. the sort in compute (Wasserstein, AUC reorder) ---- *)
+Theorem ne_merge_tree_eq_single : forall (c : ne_cfg) (t : mtree ne_metric),
+  Forall (fun b => valid ne_metric c b = true) (stream _ t) ->
+  cmp ne_metric c (run ne_metric c t) = cmp ne_metric c (run ne_metric c (Shard _ (stream _ t))).
+Proof. exact (merge_tree_eq_single ne_metric ne_alg). Qed.
+Theorem perplexity_merge_tree_eq_single : forall (c : option Z) (t : mtree px_metric),
+  Forall (fun b => valid px_metric c b = true) (stream _ t) ->
+  cmp px_metric c (run px_metric c t) = cmp px_metric c (run px_metric c (Shard _ (stream _ t))).
+Proof. exact (merge_tree_eq_single px_metric px_alg). Qed.
+Theorem auc_merge_tree_eq_single : forall (c : auc_cfg) (t : mtree auc_metric),
+  Forall (fun b => valid auc_metric c b = true) (stream _ t) ->
+  cmp auc_metric c (run auc_metric c t) = cmp auc_metric c (run auc_metric c (Shard _ (stream _ t))).
+Proof. exact (merge_tree_eq_single auc_metric auc_alg). Qed.
+Theorem wasserstein_merge_tree_eq_single : forall (c : unit) (t : mtree w_metric),
+  Forall (fun b => valid w_metric c b = true) (stream _ t) ->
+  cmp w_metric c (run w_metric c t) = cmp w_metric c (run w_metric c (Shard _ (stream _ t))).
+Proof. exact (merge_tree_eq_single w_metric wasserstein_alg). Qed.
+
 Print Assumptions max_any_sharding.
 Print Assumptions min_any_sharding.
 Print Assumptions cat_merge_tree_eq_single.
@@ -72,3 +113,10 @@ Print Assumptions throughput_merge.
 Print Assumptions mse_adoption_path.
 Print Assumptions cov_chan_tree.
 Print Assumptions cov_merge_eq_single.
+Print Assumptions mse_any_sharding.
+Print Assumptions r2_any_sharding.
+Print Assumptions psnr_any_sharding.
+Print Assumptions ne_merge_tree_eq_single.
+Print Assumptions perplexity_merge_tree_eq_single.
+Print Assumptions auc_merge_tree_eq_single.
+Print Assumptions wasserstein_merge_tree_eq_single.
